@@ -637,7 +637,7 @@ def oracle(log, scenario=(), want=("C12", "C13")):
 
 # ---------------------------------------------------------------- running
 def run_impl(lines):
-    env = dict(os.environ, ASAN_OPTIONS="detect_leaks=1:abort_on_error=0")
+    env = dict(os.environ, ASAN_OPTIONS="detect_stack_use_after_return=1:detect_leaks=1:abort_on_error=0")
     try:
         r = subprocess.run([HARNESS], input="\n".join(lines) + "\n", stdout=subprocess.PIPE, stderr=subprocess.PIPE,
                            text=True, timeout=75, env=env)
